@@ -131,6 +131,21 @@ impl Generator {
     pub(super) fn process_stack_ops(&mut self, opcode: OpcodeKind, arg_bytes: Option<&[u8]>) {
         use OpcodeKind::*;
 
+        // remember the container this opcode is about to change in place, so that reset()
+        // and drop can break reference cycles such as EMPTY_LIST DUP APPEND
+        let in_place_target = match opcode {
+            Append | Build => self.peek_at(1).cloned(),
+            SetItem => self.peek_at(2).cloned(),
+            Appends | SetItems | AddItems => self
+                .count_items_to_mark()
+                .and_then(|above_mark| self.peek_at(above_mark + 1))
+                .cloned(),
+            _ => Option::None,
+        };
+        if let Some(cell) = in_place_target {
+            self.state.in_place.push(cell);
+        }
+
         match opcode {
             Pop => {
                 self.pop();
